@@ -83,9 +83,10 @@ Print Assumptions c17_vary.
     element with a strictly larger q stands for a charset that cannot encode
     the text; 406 only when no element with q > 0 (nor the implicit ISO-8859-1)
     stands for a charset that can; never 500. *)
-Theorem c17_charset : forall (T : Type) (encodable : list Z -> T -> bool) c oneshot ct els b,
+Theorem c17_charset : forall (T : Type) (encodable : list Z -> T -> bool) (usable : list Z -> bool)
+                             c oneshot ct els b,
   buffered_repaired c oneshot -> els <> [] ->
-  match encode_tool T encodable c oneshot ct (Some els) b with
+  match encode_tool T encodable usable c oneshot ct (Some els) b with
   | CChosen cs dropped => dropped = 0 /\ chosen_ok T encodable c els b cs
   | C406 => none_ok T encodable c els b
   | C500 => False
@@ -121,11 +122,14 @@ Print Assumptions c17_decision_nonvacuous.
 
 Example c17_charset_nonvacuous :
   buffered_repaired (ex_cfg false true true) true
-  /\ encode_tool Z ex_enc (ex_cfg false true true) true (Some s_text_plain)
+  /\ encode_tool Z ex_enc ex_usable (ex_cfg false true true) true (Some s_text_plain)
        (Some [el s_iso 1000; el s_utf8 500]) [CText 0; CBytes; CText 1] = CChosen s_utf8 0
-  /\ encode_tool Z ex_enc (ex_cfg false true true) true (Some s_text_plain)
+  /\ encode_tool Z ex_enc ex_usable (ex_cfg false true true) true (Some s_text_plain)
        (Some [el s_utf8 0; el s_star 1000]) [CText 1] = C406
-  /\ encode_tool Z ex_enc (ex_cfg false true true) true (Some s_text_plain)
-       (Some [el s_deflate 0]) [CText 0] = CChosen s_iso 0.
+  /\ encode_tool Z ex_enc ex_usable (ex_cfg false true true) true (Some s_text_plain)
+       (Some [el s_deflate 0]) [CText 0] = CChosen s_iso 0
+  (* streamed: a name without a codec is skipped *)
+  /\ encode_tool Z ex_enc ex_usable (ex_cfg true true true) true (Some s_text_plain)
+       (Some [el s_deflate 1000; el s_utf8 500]) [CText 1] = CChosen s_utf8 0.
 Proof. exact ex_charset. Qed.
 Print Assumptions c17_charset_nonvacuous.
